@@ -56,6 +56,41 @@ let obs_saveproj img =
      | Panic _ -> "panic"
      | Fuel -> "hang")
 
+(* ---- single-field edits of summary.json (Model/ExtractEdit.v) ---- *)
+(* the opcode bytes of a dependency expression as the (opcode, GUID) list of the JSON *)
+let rec depex_ops (b : z list) : (z * z list option) list =
+  match b with
+  | [] -> []
+  | op :: r when int_of_z op <= 2 ->
+    let rec take n l acc = if n = 0 then (List.rev acc, l) else
+        match l with x :: t -> take (n - 1) t (x :: acc) | [] -> (List.rev acc, []) in
+    let (g, rest) = take 16 r [] in
+    (op, Some g) :: depex_ops rest
+  | op :: r -> (op, None) :: depex_ops r
+
+let fedit_of kind (v : z list) : fedit option =
+  match kind with
+  | "guid" -> Some (EGuid v)
+  | "ui" -> Some (EName v)
+  | "version" -> Some (EVersion v)
+  | "depex" -> Some (EDepex (depex_ops v))
+  | _ -> None
+
+let obs_diredit img kind k v =
+  match fedit_of kind v with
+  | None -> "harness-error kind"
+  | Some e ->
+  match parse_region dec u2s nvar depth img with
+  | Err _ -> "err"
+  | Panic _ -> "panic"
+  | Fuel -> "hang"
+  | Ok _ ->
+    (match dir_edit_save dec enc u2s s2u nvar mangle3 depth img e (nat_of_int k) with
+     | Ok b -> "ok " ^ hex_of_bytes b
+     | Err e -> if int_of_z e = 30 then "err-load" else "err-asm"
+     | Panic _ -> "panic"
+     | Fuel -> "hang")
+
 (* ---- flash images (descriptor + regions): Model/ExtractFlash.v ---- *)
 let flash_parses img =
   match flash_layout img with
@@ -117,6 +152,7 @@ let eval fn args : string option =
       | "xpaths", [img] -> Some (obs_xpaths (bytes_of_hex img))
       | "dirsave", [img] -> Some (obs_dirsave (bytes_of_hex img))
       | "saveproj", [img] -> Some (obs_saveproj (bytes_of_hex img))
+      | "diredit", [img; kind; k; v] -> Some (obs_diredit (bytes_of_hex img) kind (int_of_string ("0x" ^ k)) (bytes_of_hex v))
       | _ -> None in
     match r with
     | None -> eval_ffs fn args
